@@ -14,7 +14,7 @@ RULE = ("NetSpecs from everything create_network accepts (full lattice + exact a
         "non-trivial when it combines >= 2 optional features and executes >= 30 events; distinct by spec digest.")
 ASSUMPTIONS = ["a valid input is one built by the generator from documented parameter forms (DESIGN 2.1)",
                "event budget per case; a run that hits it is inconclusive for the return-time clauses"]
-WALL = {"quick": 50, "thorough": 540}
+WALL = {"quick": 150, "thorough": 540}
 
 
 def nontrivial(a, spec, res):
@@ -34,5 +34,5 @@ def subchecks(tier):
     prof = common.full_profile(allowed=common.FULL + ["exact", "deadlock"], horizon=(0.25, 14.0))
     prof.weights.update({"exact": 0.12, "deadlock": 0.1, "tracker": 0.3})
     return [system_subcheck("lattice", prof, lambda spec: [Horizon()], nontrivial, classes=classes,
-                            n={"quick": 3200, "thorough": 60000}, abort_is_violation="C14",
+                            n={"quick": 9600, "thorough": 60000}, abort_is_violation="C14",
                             rule="full lattice incl. exact/trackers/deadlock detector; horizon + count monitor")]
